@@ -53,6 +53,10 @@ def main():
                     r = {"text": ampgen2goofit(path, ret_output=True)}
                 elif entry == "py":
                     r = {"text": ampgen2goofitpy(path, ret_output=True)}
+                elif entry in ("cpp_print", "py_print"):
+                    # the printing form of the converters (what the command line does); the text is what reached stdout
+                    (ampgen2goofit if entry == "cpp_print" else ampgen2goofitpy)(path)
+                    r = {"text": buf.getvalue()}
                 elif entry == "read_cpp":
                     lines, states = GooFitChain.read_ampgen(path)
                     r = {"read2": [[str(ln), repr(ln.amp)] for ln in lines], "states": [str(s) for s in states],
@@ -67,7 +71,7 @@ def main():
             import traceback  # noqa: PLC0415
 
             r = {"raised": f"{type(e).__name__}: {e}", "traceback": traceback.format_exc(limit=5)}
-        r["stdout"] = buf.getvalue()[:2000]
+        r["stdout"] = "" if entry.endswith("_print") else buf.getvalue()[:2000]      # (for the printing entries stdout *is* the result)
         out.append(r)
     sys.stdout.write(json.dumps(out))
 
